@@ -33,6 +33,7 @@ SanSome == <<G("dns", "$d1", <<>>, ""), G("ip", "", <<192, 0, 2, 1>>, "")>>
 SanAll  == <<G("rfc822", "$m1", <<>>, ""), G("dns", "$d1", <<>>, ""), G("uri", "$u1", <<>>, ""),
              G("ip", "", <<10, 1, 2, 3>>, ""),
              G("ip", "", <<32, 1, 13, 184, 0, 0, 0, 0, 0, 0, 0, 0, 0, 0, 0, 1>>, ""),
+             G("ip", "", <<0, 0, 0, 0, 0, 0, 0, 0, 0, 0, 255, 255, 192, 0, 2, 9>>, ""),
              G("other", "$upn", <<>>, "1.3.6.1.4.1.311.20.2.3")>>
 
 St(v, val) == [v |-> v, val |-> val, b |-> <<>>, dn |-> <<>>, prefix |-> None, mask |-> <<>>]
